@@ -208,11 +208,11 @@ func (act *activation) call(a *alt, ins ssa.Instruction, c *ssa.CallCommon, defe
 		targs := args
 		for i, x := range args {
 			if cid, path, ok := e.addrRoot(x); ok && len(path) == 0 {
-				if cv, ok := a.cells[cid]; ok && !T.Opaque(cv.val) {
+				if cv, ok := a.cells[cid]; ok {
 					if &targs[0] == &args[0] {
 						targs = append([]term.ID(nil), args...)
 					}
-					targs[i] = T.Mk("ref", cv.val)
+					targs[i] = T.Mk("ref", e.snapshot(cv.val, a.cells, 0))
 				}
 			}
 		}
@@ -421,6 +421,38 @@ func (e *Engine) opaqueWithin(t term.ID, args, fvs []term.ID, cells map[int32]ce
 		}
 	}
 	return true
+}
+
+// snapshot replaces pointers to tracked locals inside a value by references to
+// the values they hold now (nested &T{...} literals), to a small depth.
+func (e *Engine) snapshot(v term.ID, cells map[int32]cellVal, depth int) term.ID {
+	if depth > 3 || !e.T.Opaque(v) {
+		return v
+	}
+	tm := e.T.Get(v)
+	if strings.HasPrefix(tm.Op, "addr#") {
+		if n, err := strconv.Atoi(tm.Op[5:]); err == nil {
+			if cv, ok := cells[int32(n)]; ok {
+				return e.T.Mk("ref", e.snapshot(cv.val, cells, depth+1))
+			}
+		}
+		return v
+	}
+	if len(tm.Args) == 0 {
+		return v
+	}
+	args := make([]term.ID, len(tm.Args))
+	changed := false
+	for i, a := range tm.Args {
+		args[i] = e.snapshot(a, cells, depth)
+		if args[i] != a {
+			changed = true
+		}
+	}
+	if !changed {
+		return v
+	}
+	return e.T.MkSite(tm.Op, tm.Site, args...)
 }
 
 // freshCellPointer: the callee returns a pointer to a cell it allocated
